@@ -47,6 +47,7 @@ type Cfg struct {
 	CompatNames            bool // with NameStress: also names that need the compatible_names option (NewX, XArgs, XResult)
 	WideStructs            bool // some structs have 9-36 fields (more than one bookkeeping word of required-field bits)
 	ArgDefaults            bool // function arguments may carry default values (the grammar allows it)
+	SameNames              bool // files may reuse each other's global names (separate scopes: a.ID and b.ID differ); not for checks that put files into one Go package
 	NoZeroThrowsID         bool // no throws entry has id 0 (it would share the id of `success` in the result struct)
 }
 
@@ -124,6 +125,48 @@ func normKey(s string) string {
 // (exact IDL spelling); it falls back to a counter name.
 var helperNames = map[string]bool{"Client_": true, "_unknownFields": true, "BLength": true, "FastRead": true, "_foo": true, "_a": true}
 
+// reuseGlobal (SameNames): a global name that another file already uses.  Files
+// are separate scopes, so `a.ID` and `b.ID` are different things; the name must
+// be free in the current file and in every file that is referred to by the same
+// prefix as the current one.
+func (g *gen) reuseGlobal() string {
+	if !g.cfg.SameNames || g.file == nil || len(g.prog.Files) < 2 || !g.p(1, 3, "samename") {
+		return ""
+	}
+	taken := map[string]bool{}
+	var cands []string
+	for _, f := range g.prog.Files {
+		if f == g.file || f.Prefix() == g.file.Prefix() {
+			for _, d := range f.Defs {
+				taken[d.Name] = true
+			}
+		}
+	}
+	seen := map[string]bool{}
+	for _, f := range g.prog.Files {
+		if f == g.file {
+			continue
+		}
+		for _, d := range f.Defs {
+			if !taken[d.Name] && !seen[d.Name] {
+				seen[d.Name] = true
+				cands = append(cands, d.Name)
+			}
+		}
+	}
+	if len(cands) == 0 {
+		return ""
+	}
+	return rapid.SampledFrom(cands).Draw(g.t, "reused")
+}
+
+func (g *gen) globalName(pool []string, prefix string) string {
+	if n := g.reuseGlobal(); n != "" {
+		return n
+	}
+	return g.stressName(pool, g.globalScope(), prefix)
+}
+
 func (g *gen) stressName(pool []string, used map[string]bool, fallbackPrefix string) string {
 	if g.cfg.NameStress && g.p(2, 3, "stressname") {
 		for tries := 0; tries < 4; tries++ {
@@ -154,7 +197,7 @@ func (g *gen) typeName() string {
 	if g.cfg.CompatNames {
 		pool = append(append([]string{}, stressGlobals...), stressCompat...)
 	}
-	return g.stressName(pool, g.globalScope(), "T")
+	return g.globalName(pool, "T")
 }
 func (g *gen) fieldName() string { return g.name("f") }
 
@@ -660,7 +703,7 @@ func (g *gen) genStructLike() {
 }
 
 func (g *gen) genConst() {
-	d := &Def{Kind: KConst, Name: g.stressName(stressGlobals, g.globalScope(), "C")}
+	d := &Def{Kind: KConst, Name: g.globalName(stressGlobals, "C")}
 	for tries := 0; tries < 5; tries++ {
 		d.Type = g.genType(2, false)
 		d.Value = g.genValue(d.Type, 3)
